@@ -865,6 +865,8 @@ class Interp:
         self.loop_counter += 1
         lid = (self.loop_counter, st.lineno)
         items = self.concrete_iter(itv)
+        if items is None and self.opts.get("concrete_only"):
+            raise Undecided(f"a loop iterates over a value that constant evaluation does not know ({show(itv)[:70]}, line {st.lineno})")
         if items is None:
             n = self.choose(self.opts.get("max_for", 2) + 1, "for")
             items = [self.sym_elem(itv, i) for i in range(n)]
@@ -872,7 +874,18 @@ class Interp:
         else:
             symbolic = False
         self.emit("loop-enter", st, loop=lid, iterable=itv, n=len(items), symbolic=symbolic)
-        for i, item in enumerate(items):
+        # a list is walked by index over its CURRENT content (Python semantics): removing an element at or before the
+        # position of a loop in progress makes the loop skip the next one, appending extends the walk
+        live = itv if (isinstance(itv, Lst) and not symbolic and not getattr(itv, "is_gen", False)) else None
+        i = -1
+        while True:
+            i += 1
+            src_items = live.items if live is not None else items
+            if i >= len(src_items):
+                break
+            if i > self.opts.get("max_live_for", 500):
+                raise Undecided(f"list grows while it is iterated (line {st.lineno})")
+            item = src_items[i]
             with self.context("loop", lid, i, st):
                 self.emit("loop-iter", st, loop=lid, it=i)
                 self.assign(st.target, item, frame, st, loop_target=True)
@@ -887,6 +900,120 @@ class Interp:
         self.exec_block(st.orelse, frame)
 
     st_AsyncFor = st_For
+
+    def st_Match(self, st, frame):
+        """Structural pattern matching: cases are tried in order; literal/value patterns compare with ==, singletons with
+        'is', class patterns test isinstance and then their keyword sub-patterns on attributes, sequence patterns need a
+        sequence of known length; captures bind only when the whole case (and its guard) is taken."""
+        subj = self.eval(st.subject, frame)
+        for case in st.cases:
+            binds = {}
+            if not self.match_pattern(case.pattern, subj, binds, st, frame):
+                continue
+            saved = dict(frame.env)
+            frame.env.update(binds)
+            if case.guard is not None and not self.truth(self.eval(case.guard, frame), case.guard):
+                frame.env.clear()
+                frame.env.update(saved)
+                continue
+            self.exec_block(case.body, frame)
+            return
+
+    def match_pattern(self, pat, v, binds, node, frame) -> bool:
+        if isinstance(pat, ast.MatchValue):
+            return bool(self.truth(self.compare("Eq", v, self.eval(pat.value, frame), pat), pat))
+        if isinstance(pat, ast.MatchSingleton):
+            return bool(self.truth(self.compare("Is", v, Const(pat.value), pat), pat))
+        if isinstance(pat, ast.MatchAs):
+            if pat.pattern is not None and not self.match_pattern(pat.pattern, v, binds, node, frame):
+                return False
+            if pat.name:
+                binds[pat.name] = v
+            return True
+        if isinstance(pat, ast.MatchOr):
+            for alt in pat.patterns:
+                b2 = {}
+                if self.match_pattern(alt, v, b2, node, frame):
+                    binds.update(b2)
+                    return True
+            return False
+        if isinstance(pat, ast.MatchClass):
+            cls = self.eval(pat.cls, frame)
+            if not self.truth(self.call_builtin("isinstance", [v, cls], {}, pat, frame), pat):
+                return False
+            if pat.patterns:
+                margs = None
+                if isinstance(cls, Cls):
+                    ca = cls.ci.find_class_attr("__match_args__")
+                    if ca is not None:
+                        cv = self.p.const_value(ca[1].module, ca[0], ca[1])
+                        if isinstance(cv, (tuple, list)):
+                            margs = list(cv)
+                    if margs is None and getattr(cls.ci, "dataclass_fields", None):
+                        margs = list(cls.ci.dataclass_fields)
+                if isinstance(cls, Builtin) and cls.name in ("str", "int", "float", "bytes", "bool") and len(pat.patterns) == 1:
+                    if not self.match_pattern(pat.patterns[0], v, binds, node, frame):
+                        return False
+                elif margs is None or len(pat.patterns) > len(margs):
+                    raise Undecided(f"positional class pattern without known __match_args__ line {pat.lineno}")
+                else:
+                    for sub, name in zip(pat.patterns, margs):
+                        if not self.match_pattern(sub, self.get_attr(v, name, pat, frame), binds, node, frame):
+                            return False
+            for name, sub in zip(pat.kwd_attrs, pat.kwd_patterns):
+                if not self.truth(self.call_builtin("hasattr", [v, Const(name)], {}, pat, frame), pat):
+                    return False
+                if not self.match_pattern(sub, self.get_attr(v, name, pat, frame), binds, node, frame):
+                    return False
+            return True
+        if isinstance(pat, ast.MatchSequence):
+            if isinstance(v, Const) and isinstance(v.v, (str, bytes)):
+                return False
+            items = self.concrete_iter(v) if isinstance(v, (Tup, Lst)) else None
+            if items is None and isinstance(v, Term) and v.op == "call" and isinstance(v.args[0], Term) and v.args[0].op == "attr" and v.args[0].args[1] == "groups":
+                rx = getattr(v.args[0].args[0], "regex", None)
+                if rx is not None:
+                    # the groups of a symbolic match: a tuple of known length
+                    import re as _re
+                    try:
+                        items = [Term("unpack", v, i) for i in range(_re.compile(rx[0]).groups)]
+                    except _re.error:
+                        items = None
+            if items is None and (isinstance(v, (Const, Obj, Cls, Fn, Dct, Mod)) or (isinstance(v, Term) and v.pytype in ("str", "int", "float", "bool", "bytes", "number"))):
+                return False
+            if items is None:
+                raise Undecided(f"sequence pattern on a value of unknown shape line {pat.lineno}")
+            stars = [i for i, s in enumerate(pat.patterns) if isinstance(s, ast.MatchStar)]
+            if not stars:
+                if len(items) != len(pat.patterns):
+                    return False
+                return all(self.match_pattern(s, x, binds, node, frame) for s, x in zip(pat.patterns, items))
+            k = stars[0]
+            after = len(pat.patterns) - k - 1
+            if len(items) < len(pat.patterns) - 1:
+                return False
+            for s, x in zip(pat.patterns[:k], items[:k]):
+                if not self.match_pattern(s, x, binds, node, frame):
+                    return False
+            for s, x in zip(pat.patterns[k + 1:], items[len(items) - after:] if after else []):
+                if not self.match_pattern(s, x, binds, node, frame):
+                    return False
+            if pat.patterns[k].name:
+                binds[pat.patterns[k].name] = Lst(items[k:len(items) - after])
+            return True
+        if isinstance(pat, ast.MatchMapping):
+            if not isinstance(v, Dct):
+                if isinstance(v, (Const, Tup, Lst, Obj)):
+                    return False
+                raise Undecided(f"mapping pattern on a value of unknown shape line {pat.lineno}")
+            for kx, sub in zip(pat.keys, pat.patterns):
+                got = v.get(self.eval(kx, frame))
+                if got is None or not self.match_pattern(sub, got, binds, node, frame):
+                    return False
+            if pat.rest:
+                raise Undecided("mapping pattern with **rest")
+            return True
+        raise Undecided(f"unsupported pattern {type(pat).__name__}")
 
     def concrete_iter(self, v):
         if isinstance(v, Const) and (v.v is None or isinstance(v.v, (bool, int, float))):
@@ -1182,6 +1309,19 @@ class Interp:
                         del self.events[n_ev:]
                     return gc[key]
                 hint = self.p.resolve_class(mod, expr.func)
+                if hint is None:
+                    # any other module-level call (partial(...), methodcaller(...), chain(...), a compiled table ...) is
+                    # evaluated once, like the interpreter of the program would at import time
+                    gc = self.__dict__.setdefault("_globals", {})
+                    key = (mod.name, name)
+                    if key not in gc:
+                        n_ev = len(self.events)
+                        try:
+                            gc[key] = self.eval_in_module(mod, expr)
+                        except Undecided:
+                            gc[key] = Term("global", f"{mod.name}.{name}")
+                        del self.events[n_ev:]
+                    return gc[key]
                 return Term("global", f"{mod.name}.{name}", hint=hint)
             # module-level mutable objects (caches, registries) are one object per interpreter run
             gc = self.__dict__.setdefault("_globals", {})
@@ -1373,6 +1513,9 @@ class Interp:
                 raise _Raise(x, e)
             return Term("sub", base, Term("slice", lo, hi, stp), node=e)
         key = self.eval(e.slice, frame)
+        if (isinstance(base, Obj) and base.label.startswith("re.Match")) or (isinstance(base, Term) and getattr(base, "regex", None) is not None):
+            # m[n] is m.group(n)
+            return self.apply(self.get_attr(base, "group", e, frame), [key], {}, [], e, frame, False)
         if isinstance(base, Dct):
             v = base.get(key)
             if v is not None:
@@ -1529,6 +1672,13 @@ class Interp:
             pl, pr = parts_(l), parts_(r)
             if pl is not None and pr is not None:
                 return Term("fstr", *(pl + pr))
+        if op == "BitOr" and isinstance(l, Dct) and isinstance(r, Dct):
+            d = Dct(list(l.pairs))
+            for k_, v_ in r.pairs:
+                d.set(k_, v_)
+            return d
+        if op == "Mult" and isinstance(l, (Tup, Lst)) and isinstance(r, Const) and isinstance(r.v, int) and 0 <= r.v <= 16:
+            return type(l)(list(l.items) * r.v)
         if op == "Add" and isinstance(l, Tup) and isinstance(r, Tup):
             return Tup(l.items + r.items)
         if op == "Add" and isinstance(l, Lst) and isinstance(r, Lst):
@@ -1829,6 +1979,8 @@ class Interp:
                 g_.is_gen = True
                 return g_
             return Lst(out) if kind == "list" else Tup(out)
+        if self.opts.get("concrete_only"):
+            raise Undecided(f"a comprehension iterates over a value that constant evaluation does not know ({show(itv)[:70]}, line {e.lineno})")
         item = self.sym_elem(itv, "i")
         if isinstance(g.target, (ast.Tuple, ast.List)) and not isinstance(item, Tup):
             self.emit("unpack", e, value=item, arity=len(g.target.elts), loop_target=True)
@@ -2006,6 +2158,59 @@ class Interp:
                     return b_.get(k_)
             elif isinstance(callee.args[1].v, str):
                 return self.get_attr(args[0], callee.args[1].v, node, frame)
+        if isinstance(callee, Foreign) and callee.dotted.split(".")[-1] == "partial" and callee.dotted.split(".")[0] in ("functools", "partial") and args:
+            return Term("partial", args[0], tuple(args[1:]), tuple(kwargs.items()))
+        if isinstance(callee, Term) and callee.op == "partial":
+            kw2 = dict(callee.args[2])
+            kw2.update(kwargs)
+            return self.apply(callee.args[0], list(callee.args[1]) + list(args), kw2, starkw, node, frame, awaited)
+        if isinstance(callee, Foreign) and callee.dotted.split(".")[-1] == "methodcaller" and callee.dotted.split(".")[0] in ("operator", "methodcaller") and args and isinstance(args[0], Const) and isinstance(args[0].v, str):
+            return Term("methodcaller", args[0], tuple(args[1:]), tuple(kwargs.items()))
+        if isinstance(callee, Term) and callee.op == "methodcaller" and len(args) == 1 and not kwargs:
+            m_ = self.get_attr(args[0], callee.args[0].v, node, frame)
+            return self.apply(m_, list(callee.args[1]), dict(callee.args[2]), [], node, frame, awaited)
+        if isinstance(callee, Foreign) and callee.dotted in ("itertools.chain", "chain") and not kwargs:
+            cols = [self.concrete_iter(a) for a in args]
+            if all(c_ is not None for c_ in cols):
+                g_ = Lst([x for c_ in cols for x in c_])
+                g_.is_gen = True
+                return g_
+        if ((isinstance(callee, Foreign) and callee.dotted in ("itertools.chain.from_iterable", "chain.from_iterable")) or (isinstance(callee, Term) and callee.op == "attr" and isinstance(callee.args[0], Foreign) and callee.args[0].dotted in ("itertools.chain", "chain") and callee.args[1] == "from_iterable")) and len(args) == 1 and not kwargs:
+            outer = self.concrete_iter(args[0])
+            if outer is not None:
+                cols = [self.concrete_iter(a) for a in outer]
+                if all(c_ is not None for c_ in cols):
+                    g_ = Lst([x for c_ in cols for x in c_])
+                    g_.is_gen = True
+                    return g_
+        if isinstance(callee, Foreign) and callee.dotted in ("itertools.islice", "islice") and len(args) in (2, 3) and all(isinstance(a, Const) and (a.v is None or isinstance(a.v, int)) for a in args[1:]):
+            items = self.concrete_iter(args[0])
+            if items is not None:
+                import itertools as _it
+                g_ = Lst(list(_it.islice(items, *[a.v for a in args[1:]])))
+                g_.is_gen = True
+                return g_
+        if isinstance(callee, Foreign) and callee.dotted in ("itertools.takewhile", "takewhile", "itertools.dropwhile", "dropwhile", "itertools.filterfalse", "filterfalse") and len(args) == 2:
+            items = self.concrete_iter(args[1])
+            if items is not None:
+                kind_ = callee.dotted.split(".")[-1]
+                out_, dropping = [], True
+                for x in items:
+                    t_ = self.truth(self.apply(args[0], [x], {}, [], node, frame, False), node) if not (isinstance(args[0], Const) and args[0].v is None) else self.truth(x, node)
+                    if kind_ == "takewhile":
+                        if not t_:
+                            break
+                        out_.append(x)
+                    elif kind_ == "dropwhile":
+                        if dropping and t_:
+                            continue
+                        dropping = False
+                        out_.append(x)
+                    elif not t_:
+                        out_.append(x)
+                g_ = Lst(out_)
+                g_.is_gen = True
+                return g_
         if isinstance(callee, Foreign) and callee.dotted in ("operator.eq", "operator.ne", "operator.is_", "operator.is_not", "operator.contains", "operator.not_", "operator.truth") and not kwargs:
             op_ = callee.dotted.split(".")[1]
             if op_ in ("eq", "ne", "is_", "is_not") and len(args) == 2:
@@ -2094,6 +2299,12 @@ class Interp:
             t.hint = hook(callee, args, kwargs)
         ev = self.emit("call", node, term=t, callee=callee, args=args, kwargs=kwargs, resolved=None, foreign=True, inlined=False, awaited=awaited)
         self.maybe_raise(ev)
+        eff = self.opts.get("call_effect")
+        if eff is not None and isinstance(callee, Obj):
+            # a rule's model of what an opaque callable (a user callback) does when it is called
+            r = eff(self, callee, args, kwargs, ev)
+            if r is not None:
+                return r
         return t
 
     def is_private_helper(self, fi) -> bool:
@@ -2165,6 +2376,9 @@ class Interp:
 
     # models of builtins and container methods --------------------------------
     def call_builtin(self, name, args, kwargs, node, frame):
+        if name == "divmod" and len(args) == 2 and not kwargs:
+            # divmod(a, b) == (a // b, a % b): the same terms (and interval facts) as the two operators
+            return Tup([self.binop("FloorDiv", args[0], args[1], node), self.binop("Mod", args[0], args[1], node)])
         if name == "isinstance" and len(args) == 2:
             r = self.isinstance_model(args[0], args[1])
             if r is not None:
